@@ -61,4 +61,10 @@ var registry = []prop{
 		Thor:   tierCfg{Shards: 16, Scale: 10, TimeoutS: 1500},
 		Assume: []string{"relation ids >= 1 (id 0 is the iterator's end marker)", "the order clause is judged only when the whole member-reference graph over ids with history is acyclic, as the statement says", "Close/cancel interleavings are sampled by the stop position, not enumerated"},
 	},
+	{
+		ID: "C13", Pkg: "props/c13", Level: "exploration",
+		Quick:  tierCfg{Shards: 1, Scale: 1, TimeoutS: 300},
+		Thor:   tierCfg{Shards: 16, Scale: 10, TimeoutS: 1500},
+		Assume: []string{"duplicate history entries of the predecessor version are interchangeable (any of them is accepted as the old state)", "the datasource is the library's own map-backed osm.HistoryDatasource"},
+	},
 }
